@@ -655,6 +655,19 @@ async def load_scripts(
             parts = global_ctx_name.split(".")
             root = f"{parts[0]}.{parts[1]}"
             will_reload.add(root)
+    #
+    # a deleted (or "commented") file is a change too; it isn't in ctx2files any longer
+    #
+    deleted_roots = set()
+    for global_ctx_name in ctx_delete:
+        if global_ctx_name in ctx2files:
+            continue
+        parts = global_ctx_name.split(".")
+        if len(parts) >= 2 and parts[0] in {"apps", "modules"}:
+            root = f"{parts[0]}.{parts[1]}"
+            deleted_roots.add(root)
+            if parts[0] == "modules":
+                will_reload.add(root)
 
     if len(will_reload) > 0:
 
@@ -690,12 +703,12 @@ async def load_scripts(
     #
     done = set()
     for global_ctx_name, src_info in ctx2files.items():
-        if not src_info.force:
-            continue
         if not global_ctx_name.startswith("apps.") and not global_ctx_name.startswith("modules."):
             continue
         parts = global_ctx_name.split(".")
         root = f"{parts[0]}.{parts[1]}"
+        if not src_info.force and root not in deleted_roots:
+            continue
         if root in done:
             continue
         pkg_path = f"{parts[0]}/{parts[1]}/__init__.py"
